@@ -72,6 +72,8 @@ class SymBytes:
             return False
         conds = []
         for a, b in zip(self.items, oi):
+            if a is b:
+                continue
             r = a == b
             if isinstance(r, SymBool):
                 conds.append(r.z)
